@@ -62,6 +62,15 @@ def run_property(prop, tier, seed, replay=None):
             aok, theorems, alog = vlib.props_assumptions(prop)
             if not aok:
                 broken.append({'kind': 'assumptions-unreadable', 'log': alog[-800:]})
+    chk_axioms = None
+    if tier == 'thorough' and ok and aok:
+        # independent checker over the compiled property file and everything it depends on
+        obligations += 1
+        cok, chk_axioms, cbad, clog = vlib.coqchk(prop)
+        if cok:
+            discharged += 1
+        else:
+            broken.append({'kind': 'coqchk-failed', 'not_allowed': cbad[:10], 'log': clog})
     obligations += len(theorems) if theorems else len(getattr(P, 'THEOREMS', [])) or 1
     for name, axs in theorems.items():
         badax = [a for a in axs if not vlib.axiom_ok(a)]
@@ -207,6 +216,7 @@ def run_property(prop, tier, seed, replay=None):
             'trusted_base': P.TRUSTED_BASE,
             'theorems': sorted(theorems),
             'axioms_used': sorted({a for v in theorems.values() for a in v}),
+            'coqchk_axioms_non_primitive': sorted(a for a in (chk_axioms or []) if not a.startswith(vlib.COQCHK_PRIMS)) if chk_axioms is not None else 'not run (thorough tier only)',
             'theorems_closed_under_global_context': sorted(k for k, v in theorems.items() if not v),
             'evaluations': evals, 'distinct_nontrivial': nontrivial,
             'traces_validated_against_impl': traces,
